@@ -46,7 +46,9 @@ class C07(ScanCheck):
             "type, decoy second TxPublicKey, tx key after other sub-fields, no tx key, short / absent additional-key list) -> the "
             "MODEL's sender (Spec/Sender.v via build_scan) produces the bytes, ground truth cross-checked against an independent python "
             "sender; each scenario is scanned through tx / prefix / checker (/ pchecker) entry points with 1-2 range choices; "
-            "oracle = python ground truth + independent python scanner; non-trivial = distinct case line")
+            "the one-time keys of the small scenarios are also given to SubKeyChecker::check directly (subkey_check: main key and "
+            "additional key, true and shifted position, owned primary / subaddress / out of range / foreign / wrongly tagged / "
+            "invalid key); oracle = python ground truth + independent python scanner; non-trivial = distinct case line")
     level_note = ("theorems are about the Gallina model (Model/Scan.v, Model/Ecdh.v) and hold for EVERY group satisfying the EdLaws "
                   "record and every hash (_partial); that curve25519-dalek's / the executable model's arithmetic is such a group is NOT "
                   "proved - model = implementation = independent python reference is checked on every case. Completeness is relative to "
@@ -171,6 +173,55 @@ class C07(ScanCheck):
                     self.expected[self.key(l)] = line
                     self.truth[self.key(l)] = gt
         self._evalA_pick(cases)
+        return cases + self.subkey_cases(rng, real, 1200 if q else 8000)
+
+    def subkey_cases(self, rng, real, budget):
+        """SubKeyChecker::check called directly on the published one-time keys of the small scenarios, with the main key and
+        with the additional key of the position (and sometimes with a wrong position).  Expected result from python alone:
+        P - Hs(8*v*K || pos)*G looked up in the wallet's table (view tags play no role here); in addition the sender-side truth:
+        an output addressed to an in-range address of the wallet must be found under the key it was derived with."""
+        self.sub_expected = {}
+        cases = []
+        small = [x for x in real if len(x[0]["outs"]) <= 3]
+        rng.shuffle(small)
+        for (s_, snt, txhex, rows) in small:
+            pub = sc.published(s_, snt)
+            v, Spt = s_["v"], sc.gmul(s_["s"])
+            S = sc.cp(Spt).hex()
+            for (r, keep, line, owned, gt) in rows:
+                table = sc.wallet_table(v, Spt, r)
+                for i, (Pb, tag) in enumerate(pub["targets"]):
+                    keys = [k for k in [pub["main"]] + pub["adds"][i:i + 1] if k is not None]
+                    if not keys:
+                        keys = [snt["main"]]            # scenario without a published tx key: the sender's key all the same
+                    for K in keys:
+                        for pos in [i] + ([i + 1] if rng.random() < 0.15 else []):
+                            if len(cases) >= budget:
+                                return cases
+                            l = "subkey_check %s %s %d %d %d %d %d %s %s" % (sc.sc(v).hex(), S, r[0], r[1], r[2], r[3], pos,
+                                                                            Pb.hex(), K.hex())
+                            if l in self.sub_expected:
+                                continue
+                            Ppt = ed.decompress_strict(Pb)
+                            if Ppt is None:
+                                if rng.random() < 0.7:
+                                    continue            # keys refused by from_slice: a sample is enough
+                                want = "ERR key"
+                            else:
+                                Dv = sc.cp(sc.fmul(8, sc.fmul(v, ed.decompress_strict(K))))
+                                idx = table.get(sc.cp(sc.psub(Ppt, sc.gmul(sc.hs(Dv + sc.vi(pos))))))
+                                want = "NONE" if idx is None else "OK %d %d" % idx
+                            o = s_["outs"][i]
+                            truth = None
+                            if (pos == i and o["kind"] == "w" and (o["fv"], o["fs"]) == (s_["v"], s_["s"]) and
+                                    r[0] <= o["maj"] < r[1] and r[2] <= o["min"] < r[3] and K == snt["outs"][i]["K"]):
+                                truth = "OK %d %d" % (o["maj"], o["min"])
+                            self.sub_expected[l] = (want, truth)
+                            kind = "err" if want == "ERR key" else "none" if want == "NONE" else \
+                                ("owned-sub" if idx != (0, 0) else "owned-primary")
+                            if truth is not None and o["tag"] == "x":
+                                kind += "-wrong-view-tag"
+                            cases.append(Case(l, "subkey_check " + kind + ("" if pos == i else " wrong-position")))
         return cases
 
     @staticmethod
@@ -185,6 +236,13 @@ class C07(ScanCheck):
         r = impl.split(" ")
         if r[0] in ("PANIC", "ABORT", "TIMEOUT"):
             return "implementation did not return: " + r[0]
+        if case.line.startswith("subkey_check "):
+            want, truth = getattr(self, "sub_expected", {}).get(case.line, (None, None))
+            if truth is not None and impl != truth:
+                return "SubKeyChecker::check returned %s, but the sender addressed this output to index %s" % (impl[:80], truth[3:])
+            if want is not None and impl != want:
+                return "SubKeyChecker::check differs from the reference: want %s, got %s" % (want, impl[:80])
+            return None
         want = self.expected.get(self.key(case.line))
         if want is None:
             return None
@@ -203,6 +261,8 @@ class C07(ScanCheck):
 
     def neighbours(self, case, rng):
         w = case.line.split(" ")
+        if w[0] == "subkey_check":
+            return []
         return [Case(" ".join([w[0], e] + w[2:])) for e in ENTRIES if e != w[1]]
 
     def extra_coverage(self, cases, impl, model):
